@@ -28,7 +28,7 @@ Fixpoint json_of_item (it : item) {struct it} : json :=
 
 Definition rerr_name (e : rerr) : json :=
   match e with
-  | EFuel => JStr "fuel" | ETruncated => JStr "truncated" | EEndAtTop => JStr "end_block_at_top_level"
+  | EFuel => JStr "fuel" | ETruncated => JStr "truncated_or_noncanonical_vbr" | EEndAtTop => JStr "end_block_at_top_level"
   | EDefineAbbrev => JStr "define_abbrev_not_in_format" | EUndefAbbrev id => JArr [JStr "undefined_abbrev_id"; JNum id]
   | EBadAbbrevWidth w => JArr [JStr "bad_abbrev_width"; JNum w]
   | EBadPadding => JStr "nonzero_or_missing_alignment_padding"
